@@ -807,6 +807,9 @@ func buildIntrinsics() map[string]*Native {
 		return Bool(re.MatchString(s))
 	})
 	reg("(*regexp.Regexp).String", func(ip *Interp, a []Value) Value {
+		if sr, ok := a[0].(Opaque).V.(*symRegexp); ok {
+			return sr.pattern
+		}
 		re := a[0].(Opaque).V.(*regexp.Regexp)
 		return MkStr(re.String())
 	})
